@@ -221,6 +221,10 @@ XMLUCS4Transcoder::transcodeTo( const   XMLCh* const    srcData
         }
          else
         {
+            // A trailing surrogate without a leading one is not a character
+            if ((curCh >= 0xDC00) && (curCh <= 0xDFFF))
+                ThrowXMLwithMemMgr(TranscodingException, XMLExcepts::Trans_BadTrailingSurrogate, getMemoryManager());
+
             //
             //  Its just a char, so we can take it as is. If we need to
             //  swap it, then swap it. Because of flakey compilers, use
